@@ -288,6 +288,7 @@ type LState struct {
 	hasErrorFunc bool
 	mainLoop     func(*LState, *callFrame)
 	ctx          context.Context
+	ctxParent    context.Context // what the contexts of coroutines created here are derived from
 	ctxCancelFn  context.CancelFunc
 	// number of Go->Lua re-entries (Call from a Go function, metamethods,
 	// iterators) active on this thread; a yield cannot cross them
